@@ -100,6 +100,16 @@ def _install_patches():
                              op <= w.shim.fail_until):
                     raise requests.exceptions.ConnectionError(
                         'injected git-host failure (op %d, %s)' % (op, name))
+                arm = w.armed_lost_reply
+                if arm and arm['name'] == name:
+                    arm['seen'] += 1
+                    if arm['seen'] == arm['nth']:
+                        # the host carries the call out, the reply is lost
+                        w.armed_lost_reply = None
+                        orig(self, *a, **kw)
+                        w.lost_replies.append(name)
+                        raise requests.exceptions.ReadTimeout(
+                            'injected lost reply (%s)' % name)
             return orig(self, *a, **kw)
         wrapper.__name__ = name
         setattr(cls, name, wrapper)
@@ -305,6 +315,8 @@ class World:
         self.clock = 0
         self.in_job = False
         self.armed_push = None
+        self.armed_lost_reply = None
+        self.lost_replies = []
         self.pr_list_reads = 0
         self.mid_job_pushes = []
         self.in_berte = False
@@ -622,6 +634,11 @@ class World:
         right before the robot's nth read of the pull-request list"""
         self.armed_push = {'branch': branch, 'nth': nth}
 
+    def a_arm_lost_reply(self, call='add_comment', nth=1):
+        """during the next job the host carries out the robot's nth call of
+        `name` but the reply never arrives (read timeout)"""
+        self.armed_lost_reply = {'name': call, 'nth': nth, 'seen': 0}
+
     def a_amend(self, branch, user=AUTHOR):
         self._sync_actor()
         self.git('checkout', '-q', '-B', branch, 'origin/' + branch)
@@ -808,6 +825,7 @@ class World:
         finally:
             self.in_job = False
             self.armed_push = None
+            self.armed_lost_reply = None
         after = self.snapshot()
         rec = {
             'kind': kind, 'arg': arg, 'kw': kw,
